@@ -22,9 +22,23 @@ fn tid() -> u64 {
     s.trim_start_matches("ThreadId(").trim_end_matches(')').parse().unwrap_or(0)
 }
 
+/// OS thread ids of the reloader threads (rust thread id ↦ kernel tid), to tell a *dead* reloader thread
+/// (its task directory is gone) from a slow one without waiting for a time-out.
+static HR_OS_TID: std::sync::Mutex<BTreeMap<u64, u64>> = std::sync::Mutex::new(BTreeMap::new());
+
+fn os_tid() -> Option<u64> {
+    // `/proc/thread-self` -> `<pid>/task/<tid>`
+    let l = std::fs::read_link("/proc/thread-self").ok()?;
+    l.file_name()?.to_str()?.parse().ok()
+}
+
 fn yield_hook(tag: &'static str) {
     match tag {
-        "hr-thread-before-ready" => { HR_THREADS.lock().unwrap_or_else(|e| e.into_inner()).insert(tid(), true); }
+        "hr-thread-before-ready" => {
+            let t = tid();
+            { let mut m = HR_OS_TID.lock().unwrap_or_else(|e| e.into_inner()); if !m.contains_key(&t) { if let Some(o) = os_tid() { m.insert(t, o); } } }
+            HR_THREADS.lock().unwrap_or_else(|e| e.into_inner()).insert(t, true);
+        }
         "hr-thread-after-ready" => { HR_THREADS.lock().unwrap_or_else(|e| e.into_inner()).insert(tid(), false); }
         _ => {}
     }
@@ -42,11 +56,15 @@ pub struct WorldExec {
     /// the reloader thread of this cache (as seen by the yield hook)
     hr_thread: Option<u64>,
     leak: bool,
+    /// how long the quiescence barrier (and `reload_bounded`) waits before answering `sync-timeout`
+    pub wait_secs: u64,
     static_mode: bool,
     /// set when a reload pass loaded an asset that was not cached before the pass: from then on the cached values
     /// depend on the (unspecified) order in which the assets of that pass were reloaded — see known finding F-C05d —
     /// and engines that compare values with the model stop the case here
     pub unspecified: bool,
+    /// kernel tid of the reloader thread (liveness through `/proc/self/task`), when it could be determined
+    hr_os_tid: Option<u64>,
 }
 
 pub const ALL_TYPES: &[&str] = &["S0", "S1", "S2", "N0", "AN", "AS", "I", "M00", "M01", "M10", "M11", "M20", "M21", "M30", "M31", "M40", "M41", "M50", "M51",
@@ -54,6 +72,11 @@ pub const ALL_TYPES: &[&str] = &["S0", "S1", "S2", "N0", "AN", "AS", "I", "M00",
 
 fn catch<R>(f: impl FnOnce() -> R) -> Result<R, ()> {
     std::panic::catch_unwind(std::panic::AssertUnwindSafe(f)).map_err(|_| ())
+}
+
+/// decimal digits only (what the model driver's `String.toNat?` accepts from the generators)
+fn strict_nat(s: &str) -> Option<usize> {
+    if s.is_empty() || s.len() > 9 || !s.bytes().all(|b| b.is_ascii_digit()) { None } else { s.parse().ok() }
 }
 
 pub fn quiet_panics() {
@@ -76,7 +99,7 @@ impl WorldExec {
         *loader_faults() = (0, BTreeMap::new());
         { let mut l = ledger(); l.created.clear(); l.dropped.clear(); }
         assets_manager::verif::set_yield_hook(Some(yield_hook));
-        let known: Vec<u64> = HR_THREADS.lock().unwrap_or_else(|e| e.into_inner()).keys().copied().collect();
+        let known_max: u64 = HR_OS_TID.lock().unwrap_or_else(|e| e.into_inner()).keys().next_back().copied().unwrap_or(0);
         let (local, via_any) = match frontend { "shared" => (false, false), "any" => (false, true), "local" => (true, false), _ => (true, true) };
         let src = MemSource::new(mode == "hot" || mode == "nohot-ctor");
         let (fe, has_reloader) = if local {
@@ -87,9 +110,18 @@ impl WorldExec {
             (Fe::Shared(Box::new(AssetCache::with_source(src.clone()))), mode == "hot")
         };
         // identity of the cache's reloader thread (verif hook)
-        let _ = &known;
         let hr_thread = match &fe { Fe::Shared(c) => c.verif_reloader_id().map(|i| i as u64), _ => None };
-        WorldExec { src, fe, via_any, has_reloader, handles: BTreeMap::new(), next_h: 0, watchers: BTreeMap::new(), hr_thread, leak: false, static_mode: false, unspecified: false, universe_ids: crate::eng_cache::IDS.iter().map(|s| s.to_string()).chain(["".to_string(), "d".to_string(), "d.e".to_string()]).collect() }
+        // its kernel tid: the thread registers itself at its first `select.ready()`; rust thread ids only grow, so it is the
+        // first one above every id seen before the cache was created (best effort: without it a dead thread costs a time-out)
+        let mut hr_os_tid = None;
+        if has_reloader {
+            let t0 = std::time::Instant::now();
+            while hr_os_tid.is_none() && t0.elapsed().as_millis() < 2000 {
+                hr_os_tid = HR_OS_TID.lock().unwrap_or_else(|e| e.into_inner()).range(known_max + 1..).next().map(|(_, o)| *o);
+                if hr_os_tid.is_none() { std::thread::yield_now(); }
+            }
+        }
+        WorldExec { src, fe, via_any, has_reloader, handles: BTreeMap::new(), next_h: 0, watchers: BTreeMap::new(), hr_thread, hr_os_tid, leak: false, wait_secs: 20, static_mode: false, unspecified: false, universe_ids: crate::eng_cache::IDS.iter().map(|s| s.to_string()).chain(["".to_string(), "d".to_string(), "d.e".to_string()]).collect() }
     }
 
     /// Quiescence barrier without sleeping: nothing is pending in either channel and the reloader
@@ -98,7 +130,10 @@ impl WorldExec {
         let (Some(t), Fe::Shared(c), Some(tx)) = (self.hr_thread, &self.fe, self.src.sender()) else { return true };
         let t0 = std::time::Instant::now();
         let mut stable = 0;
-        while t0.elapsed().as_secs() < 20 {
+        let mut spins = 0u32;
+        while t0.elapsed().as_secs() < self.wait_secs {
+            spins = spins.wrapping_add(1);
+            if spins % 256 == 0 && !self.reloader_alive() { return false; }   // killed (e.g. by a panic): it never reports back
             let state = assets_manager::verif::reloader_in_ready(t as usize);
             if state.is_none() && t0.elapsed().as_millis() > 200 { return false; }   // the reloader thread is gone
             let quiet = tx.verif_pending() == 0 && c.verif_msgs_pending() == Some(0) && state == Some(true);
@@ -106,6 +141,39 @@ impl WorldExec {
             std::thread::yield_now();
         }
         false
+    }
+
+    /// `hot_reload()` with a bounded wait (engine `fault`: a reloader thread killed by a fault strands its caller
+    /// forever). The call runs on a helper thread; if it has not returned after `wait_secs` the answer is
+    /// `sync-timeout`, the helper stays parked and the cache is leaked (it must outlive the parked call).
+    pub fn reload_bounded(&mut self) -> String {
+        if !self.sync() { return "sync-timeout".into(); }
+        if let Fe::Shared(c) = &self.fe {
+            let p = &**c as *const AssetCache<MemSource> as usize;
+            let (tx, rx) = std::sync::mpsc::channel::<()>();
+            std::thread::spawn(move || {
+                let c: &AssetCache<MemSource> = unsafe { &*(p as *const AssetCache<MemSource>) };
+                c.hot_reload();
+                let _ = tx.send(());
+            });
+            let t0 = std::time::Instant::now();
+            loop {
+                match rx.recv_timeout(std::time::Duration::from_millis(2)) {
+                    Ok(()) => break,
+                    Err(std::sync::mpsc::RecvTimeoutError::Timeout) => {
+                        // the reloader thread is gone (its caller will never be answered), or it is alive and silent for too long
+                        if !self.reloader_alive() || t0.elapsed().as_secs() >= self.wait_secs { self.leak = true; return "sync-timeout".into(); }
+                    }
+                    Err(std::sync::mpsc::RecvTimeoutError::Disconnected) => return "panic".into(),
+                }
+            }
+        }
+        if self.sync() { "ok".into() } else { "sync-timeout".into() }
+    }
+
+    /// false once the reloader thread of this cache has exited (e.g. killed by a panic)
+    pub fn reloader_alive(&self) -> bool {
+        match self.hr_os_tid { Some(o) => std::path::Path::new(&format!("/proc/self/task/{o}")).exists(), None => true }
     }
 
     fn any(&self) -> AnyCache<'_> {
@@ -177,16 +245,18 @@ impl WorldExec {
             "src.mkdir" if w.len() == 2 => { self.src.mkdir(&s(1)); "ok".into() }
             "src.rmdir" if w.len() == 2 => { self.src.rmdir(&s(1)); "ok".into() }
             "fault.read" if w.len() == 3 => {
+                let Some(k) = strict_nat(w[1]) else { return "bad-op".into() };
                 let mut g = self.src.lock();
-                let at = g.ios + w[1].parse::<usize>().unwrap_or(0);
+                let at = g.ios + k;
                 g.faults.insert(at, w[2].to_string());
                 "ok".into()
             }
-            "fault.clear" => { self.src.lock().faults.clear(); loader_faults().1.clear(); "ok".into() }
+            "fault.clear" if w.len() == 1 => { self.src.lock().faults.clear(); loader_faults().1.clear(); "ok".into() }
             "fault.load" if w.len() == 3 => {
                 if w[2] != "panic" && w[2] != "err" { return "bad-op".into(); }
+                let Some(k) = strict_nat(w[1]) else { return "bad-op".into() };
                 let mut f = loader_faults();
-                let at = f.0 + w[1].parse::<usize>().unwrap_or(0);
+                let at = f.0 + k;
                 f.1.insert(at, w[2] == "panic");
                 "ok".into()
             }
